@@ -41,7 +41,8 @@ def ref_errors(triples, top, spec):
         return per, {'graph is empty'}
     srcs = {t[0] for t in triples}
     for t in triples:
-        if not R.has_role(t[1]):
+        ok = R.has_role(t[1]) or (spec.get('lenient_roles') and R.has_role(t[1].lower()))
+        if not ok:
             per.setdefault(t, set()).add('invalid role')
     if not top:
         gen.add('top is not set')
@@ -224,6 +225,9 @@ def _lib_cases(draw):
     if draw(st.booleans()):
         g = draw(graphs.wf_graphs(spec, max_vars=4))
         out = g['triples'] + out[:draw(st.integers(0, 2))]
+    if draw(st.integers(0, 7)) == 0 and spec.get('name') in ('amr', 'mini'):
+        spec = dict(spec, lenient_roles=True)
+        out = [[t[0], t[1].upper() if isinstance(t[1], str) and draw(st.booleans()) else t[1], t[2]] for t in out]
     return {'k': 'lib', 'triples': out, 'top': pick(draw, [None, None] + vs + ['z']), 'model': spec}
 
 
@@ -301,6 +305,11 @@ def _many_cases(ch):
     else:
         srcs = [[bad] * (n // 2) + [good], [good] + [bad] * (n - n // 2)]
     yield {'k': 'tool', 'sources': srcs, 'stdin': False, 'model': {'name': 'amr'}, 'extra': ['--indent', 'no'], 'subprocess': ch['split'] == 1}
+    if ch['split'] == 1:
+        # ... and ONE graph with exactly that many offending triples
+        many = ['a', [['/', 'alpha']] + [[':foo%d' % i, 'x'] for i in range(n)]]
+        yield {'k': 'tool', 'sources': [[many]], 'stdin': True, 'model': {'name': 'amr'}, 'extra': [], 'subprocess': False}
+        yield {'k': 'tool', 'sources': [[good, many, good]], 'stdin': False, 'model': {'name': 'amr'}, 'extra': [], 'subprocess': False}
 
 
 def stages(tier):
